@@ -214,3 +214,6 @@ SUBS = [
     Sub('parse_tokens', eval_parse, strategy=strat_tokens, quick=1500, thorough=30000),
     Sub('helpers', eval_helper, strategy=strat_helper, quick=400, thorough=5000, shards_quick=2, shards_thorough=4),
 ]
+
+# thorough tier: atheris / libFuzzer campaigns (fuzz/target.py) with this sub-check's evaluate() as the oracle
+FUZZ = [dict(sub='parse_free', runs=150000, shards=4, seeds=[b'\x00\x04\x08\x03', b'\x03\x05\x04\x08\x0e\x00\t'])]
